@@ -50,6 +50,10 @@ struct Group {
     children: Vec<Gid>,
     live_tasks: usize,
     aborted: bool,
+    /// aborted by one of its own tasks during the call that is being replayed: until that call
+    /// returns the other tasks of the command may still run (they were scheduled in the same pass);
+    /// when it returns the command has been cleared
+    soft: bool,
 }
 
 struct Task {
@@ -78,6 +82,11 @@ pub struct World {
     pub pending: Vec<Event>,
     pub applied: Vec<Event>,
     slots: Vec<(u16, Gid)>,
+    /// every `Abortable` node of every program instantiated so far (its handle exists from the
+    /// moment `update` built the command, long before the node is launched)
+    known_slots: Vec<u16>,
+    /// handles that were used before their command was launched
+    pre_aborted: Vec<u16>,
     exports: Vec<(Path, JoinH)>,
     pre_dropped: Vec<Path>,
     /// groups of the commands returned by update (command API), in launch order
@@ -98,6 +107,8 @@ pub struct World {
     pub spurious_polls: u64,
     /// (request, nonce) of every value a leaf future of the reference handed to its task, in order
     pub delivered: Vec<(Path, u32)>,
+    /// how many times a command or task was cancelled so far (by the shell or by a task)
+    pub cancellations: u64,
 }
 
 /// disposes of the reference runtime when a case ends, on every exit path
@@ -114,6 +125,8 @@ pub struct RefRt {
     group: Gid,
     legacy: bool,
     sink: Arc<Sink>,
+    /// slots of the `Abortable` nodes this part of the program lives under, outermost first
+    enclosing: Arc<Vec<u16>>,
 }
 
 impl World {
@@ -165,7 +178,7 @@ impl World {
         self.cells.len() - 1
     }
     fn new_group(&mut self, parent: Option<Gid>) -> Gid {
-        self.groups.push(Group { parent, event_mark: None, effect_mark: None, children: vec![], live_tasks: 0, aborted: false });
+        self.groups.push(Group { parent, event_mark: None, effect_mark: None, children: vec![], live_tasks: 0, aborted: false, soft: false });
         let g = self.groups.len() - 1;
         if let Some(p) = parent {
             self.groups[p].children.push(g);
@@ -188,6 +201,31 @@ impl World {
             g = self.groups[gi].parent;
         }
         self.effects.push(op);
+    }
+    /// an abort handle is used: the command is aborted now, or as soon as it is launched
+    fn abort_slot(&mut self, slot: u16, from_inside: bool) {
+        self.cancellations += 1;
+        let gs: Vec<Gid> = self.slots.iter().filter(|(s, _)| *s == slot).map(|(_, g)| *g).collect();
+        if gs.is_empty() {
+            self.pre_aborted.push(slot);
+        }
+        for g in gs {
+            if from_inside && !self.groups[g].aborted {
+                self.groups[g].soft = true;
+            } else {
+                self.groups[g].aborted = true;
+            }
+        }
+    }
+    fn in_soft(&self, g: Gid) -> bool {
+        let mut g = Some(g);
+        while let Some(gi) = g {
+            if self.groups[gi].soft {
+                return true;
+            }
+            g = self.groups[gi].parent;
+        }
+        false
     }
     fn cell_by_path(&mut self, path: &Path) -> Option<&mut Cell> {
         self.cells.iter_mut().find(|c| &c.op.path == path && c.sent)
@@ -320,7 +358,16 @@ impl Rt for RefRt {
                 })
                 .boxed()
             }),
-            abort: Arc::new(move || aborted.store(true, Ordering::SeqCst)),
+            abort: {
+                let w = self.w.clone();
+                // (try_lock: the handle may be used from inside a poll that holds no lock, or by the driver)
+                Arc::new(move || {
+                    aborted.store(true, Ordering::SeqCst);
+                    if let Ok(mut w) = w.try_lock() {
+                        w.cancellations += 1;
+                    }
+                })
+            },
         }
     }
     fn yield_now(&self) -> BoxFuture<'static, ()> {
@@ -340,6 +387,14 @@ impl Rt for RefRt {
     fn export(&self, key: Path, h: JoinH) {
         self.w.lock().unwrap().exports.push((key, h));
     }
+    fn abort_cmd(&self, choice: u16) -> bool {
+        if self.enclosing.is_empty() {
+            return false;
+        }
+        let slot = self.enclosing[pick(choice, self.enclosing.len())];
+        self.w.lock().unwrap().abort_slot(slot, true);
+        true
+    }
     fn retaining(&self, on: bool) {
         let mut w = self.w.lock().unwrap();
         if let Some(t) = w.cur_task {
@@ -348,6 +403,22 @@ impl Rt for RefRt {
                 t.retaining = t.retaining_depth > 0;
             }
         }
+    }
+}
+
+fn collect_slots(c: &Cmd, out: &mut Vec<u16>) {
+    match c {
+        Cmd::Abortable(slot, c) => {
+            out.push(*slot);
+            collect_slots(c, out);
+        }
+        Cmd::Then(a, b) | Cmd::And(a, b) => {
+            collect_slots(a, out);
+            collect_slots(b, out);
+        }
+        Cmd::All(cs) | Cmd::Collect(cs) => cs.iter().for_each(|c| collect_slots(c, out)),
+        Cmd::MapEvent(_, c) | Cmd::MapEffect(_, c) | Cmd::WithSpawn(_, c, _) => collect_slots(c, out),
+        _ => {}
     }
 }
 
@@ -375,7 +446,7 @@ impl RefRt {
         w.programs = u.programs.clone();
         w.follow = u.follow;
         w.legacy_host = legacy_host;
-        RefRt { w: Arc::new(Mutex::new(w)), group: 0, legacy: false, sink: Sink::disabled() }
+        RefRt { w: Arc::new(Mutex::new(w)), group: 0, legacy: false, sink: Sink::disabled(), enclosing: Arc::new(vec![]) }
     }
     /// Break the reference cycle world -> task futures -> runtime handle -> world. Must be called
     /// when a case is over; the futures are dropped outside the world lock (their guards lock it).
@@ -397,7 +468,7 @@ impl RefRt {
         self.w.lock().unwrap()
     }
     fn child(&self, group: Gid) -> RefRt {
-        RefRt { w: self.w.clone(), group, legacy: self.legacy, sink: self.sink.clone() }
+        RefRt { w: self.w.clone(), group, legacy: self.legacy, sink: self.sink.clone(), enclosing: self.enclosing.clone() }
     }
     fn internal(&self, fut: BoxFuture<'static, ()>) -> Tid {
         self.w.lock().unwrap().add_task(self.group, None, self.legacy, fut).0
@@ -570,8 +641,24 @@ impl RefRt {
                 rt.visible(vec![id, 9999], task);
             }
             Cmd::Abortable(slot, c) => {
-                self.w.lock().unwrap().slots.push((slot, g));
-                rt.launch(&c);
+                let pre_aborted = {
+                    let mut w = self.w.lock().unwrap();
+                    w.slots.push((slot, g));
+                    let pre = w.pre_aborted.contains(&slot);
+                    if pre {
+                        w.groups[g].aborted = true;
+                    }
+                    pre
+                };
+                // a command whose handle was used before it was started is cleared the moment it is
+                // started: nothing of it ever runs (its parts are dropped unstarted)
+                if !pre_aborted {
+                    let mut rt = rt.clone();
+                    let mut inner = (*rt.enclosing).clone();
+                    inner.push(slot);
+                    rt.enclosing = Arc::new(inner);
+                    rt.launch(&c);
+                }
             }
         }
         g
@@ -693,6 +780,57 @@ impl RefRt {
         }
     }
 
+    /// A command aborted by one of its own tasks during this call has certainly been cleared once
+    /// none of its visible tasks that ever ran is left: discard what remains of it (coordinators,
+    /// parts that were launched here but never ran). Returns true if something was settled.
+    fn settle_soft(&self) -> bool {
+        let soft: Vec<Gid> = {
+            let w = self.w.lock().unwrap();
+            (0..w.groups.len()).filter(|&g| w.groups[g].soft).collect()
+        };
+        let mut any = false;
+        for g in soft {
+            let (blocked, victims): (bool, Vec<Tid>) = {
+                let w = self.w.lock().unwrap();
+                let inside: Vec<Tid> = (0..w.tasks.len()).filter(|&j| w.tasks[j].as_ref().map_or(false, |t| w.in_subtree(t.group, g))).collect();
+                (inside.iter().any(|&j| w.tasks[j].as_ref().map_or(false, |t| t.path.is_some() && t.polled_once)), inside)
+            };
+            if blocked {
+                continue;
+            }
+            for j in victims {
+                self.discard(j);
+            }
+            let mut w = self.w.lock().unwrap();
+            w.groups[g].soft = false;
+            w.groups[g].aborted = true;
+            any = true;
+        }
+        any
+    }
+    /// the call is over: every command one of its own tasks aborted during it has been cleared
+    fn harden(&self) -> Result<(), String> {
+        let soft: Vec<Gid> = {
+            let w = self.w.lock().unwrap();
+            (0..w.groups.len()).filter(|&g| w.groups[g].soft).collect()
+        };
+        for g in soft {
+            let kept: Option<Path> = {
+                let w = self.w.lock().unwrap();
+                w.tasks.iter().flatten().find(|t| w.in_subtree(t.group, g) && t.path.is_some() && t.polled_once).and_then(|t| t.path.clone())
+            };
+            if let Some(q) = kept {
+                return Err(format!("an aborted command was cleared but kept its task {q:?} (the command was aborted by one of its own tasks during this call)"));
+            }
+        }
+        if self.settle_soft() {
+            let waker = noop_waker();
+            let mut cx = Context::from_waker(&waker);
+            self.housekeeping(&mut cx);
+        }
+        Ok(())
+    }
+
     /// Replay the witness of one call (or of one phase of overlapping calls). `Err` = the real
     /// runtime did something the reference semantics does not allow, or left an obligation open.
     pub fn replay(&self, trace: &[Tr]) -> Result<(), String> {
@@ -703,6 +841,9 @@ impl RefRt {
         while k < trace.len() {
             match &trace[k] {
                 Tr::Polled(p) => {
+                    if self.find(p).is_none() && self.settle_soft() {
+                        self.housekeeping(&mut cx);
+                    }
                     let Some(i) = self.find(p) else { return Err(format!("the real runtime polled task {p:?}, which the reference does not have (never spawned, finished, or discarded)")) };
                     {
                         let w = self.w.lock().unwrap();
@@ -743,11 +884,18 @@ impl RefRt {
                         }
                     };
                     if !pre {
+                        if self.find(p).is_none() && self.settle_soft() {
+                            self.housekeeping(&mut cx);
+                            if matches!(&trace[k], Tr::DroppedUnstarted(_)) && self.find(p).is_none() {
+                                k += 1;
+                                continue;
+                            }
+                        }
                         let Some(i) = self.find(p) else { return Err(format!("the real runtime dropped task {p:?}, which the reference does not have")) };
                         let (aborted, legacy, chain) = {
                             let w = self.w.lock().unwrap();
                             let t = w.tasks[i].as_ref().unwrap();
-                            (t.aborted.load(Ordering::SeqCst), t.legacy, w.aborted_ancestors(t.group))
+                            (t.aborted.load(Ordering::SeqCst) || w.in_soft(t.group), t.legacy, w.aborted_ancestors(t.group))
                         };
                         if !chain.is_empty() {
                             // which aborted command was cleared? the largest whose visible tasks are all dropped in the rest of this call
@@ -810,6 +958,7 @@ impl RefRt {
                         })
                     };
                     if let Some(c) = launch {
+                        collect_slots(&c, &mut self.w.lock().unwrap().known_slots);
                         let root = self.child(0);
                         if self.w.lock().unwrap().legacy_host {
                             root.launch_legacy(&c);
@@ -861,13 +1010,7 @@ impl RefRt {
                         wk.wake();
                     }
                 }
-                Tr::AbortGroup(slot) => {
-                    let mut w = self.w.lock().unwrap();
-                    let gs: Vec<Gid> = w.slots.iter().filter(|(s, _)| s == slot).map(|(_, g)| *g).collect();
-                    for g in gs {
-                        w.groups[g].aborted = true;
-                    }
-                }
+                Tr::AbortGroup(slot) => self.w.lock().unwrap().abort_slot(*slot, false),
                 Tr::AbortTask(key) => {
                     let hs: Vec<JoinH> = self.w.lock().unwrap().exports.iter().filter(|(k, _)| k == key).map(|(_, h)| h.clone()).collect();
                     for h in hs {
@@ -885,6 +1028,7 @@ impl RefRt {
 
     /// the obligations at the end of a call (end of a phase for overlapping calls)
     pub fn obligations(&self) -> Result<(), String> {
+        self.harden()?;
         if let Some(q) = self.w.lock().unwrap().pre_dropped.first().cloned() {
             return Err(format!("an aborted command was cleared but kept its task {q:?}"));
         }
@@ -960,17 +1104,46 @@ impl RefRt {
             _ => Expect::Err,
         })
     }
+    /// does this request belong to work that has been cancelled (its future dropped, its task or
+    /// command aborted, or the request itself dropped)?
+    pub fn is_cancelled_target(&self, path: &Path) -> bool {
+        let mut w = self.w.lock().unwrap();
+        let Some(c) = w.cell_by_path(path) else { return false };
+        if c.consumer_gone || c.dropped {
+            return true;
+        }
+        let owner = c.owner;
+        match owner.and_then(|t| w.tasks[t].as_ref()) {
+            Some(t) => t.aborted.load(Ordering::SeqCst) || w.in_aborted(t.group),
+            None => owner.is_some(), // the owning task is gone
+        }
+    }
     pub fn consumer_alive(&self, path: &Path) -> bool {
         let mut w = self.w.lock().unwrap();
         w.cell_by_path(path).map_or(false, |c| !c.consumer_gone)
     }
-    /// slots of `Abortable` commands that are neither aborted nor finished
+    /// slots of `Abortable` commands that are neither aborted nor finished (commands that have not
+    /// been started yet - the second part of a `then` - included: their handles exist already)
     pub fn abortable_slots(&self) -> Vec<u16> {
         let w = self.w.lock().unwrap();
-        let mut v: Vec<u16> = w.slots.iter().filter(|(_, g)| !w.groups[*g].aborted && !w.done(*g)).map(|(s, _)| *s).collect();
+        let mut v: Vec<u16> = w
+            .known_slots
+            .iter()
+            .copied()
+            .filter(|s| !w.pre_aborted.contains(s))
+            .filter(|s| {
+                let mut launched = w.slots.iter().filter(|(t, _)| t == s).peekable();
+                launched.peek().is_none() || launched.all(|(_, g)| !w.groups[*g].aborted && !w.done(*g))
+            })
+            .collect();
         v.sort();
         v.dedup();
         v
+    }
+    /// was this slot's handle used before its command was launched, or is it not launched yet?
+    pub fn slot_unlaunched(&self, slot: u16) -> bool {
+        let w = self.w.lock().unwrap();
+        !w.slots.iter().any(|(s, _)| *s == slot)
     }
     pub fn exported_keys(&self) -> Vec<Path> {
         let w = self.w.lock().unwrap();
